@@ -5,6 +5,7 @@ package main
 
 import (
 	"fmt"
+	"go/token"
 	"go/types"
 	"os"
 	"strings"
@@ -1011,11 +1012,17 @@ func connSetEffect(in ssa.Instruction, t types.Type, depth int) (add, rem bool) 
 			}
 			for _, b := range callee.Blocks {
 				iff, ok := b.Instrs[len(b.Instrs)-1].(*ssa.If)
-				if !ok || iff.Cond != ssa.Value(p) {
+				if !ok {
 					continue
 				}
+				// the condition is the parameter itself, its negation, or a comparison of it with a constant
+				pol, isP := paramPolarity(iff.Cond, p)
+				if !isP {
+					continue
+				}
+				taken := v == pol // does the true successor run for the value passed?
 				skip := b.Succs[0]
-				if v {
+				if taken {
 					skip = b.Succs[1]
 				}
 				if len(skip.Preds) != 1 {
@@ -1112,4 +1119,35 @@ func c17ListenerRegistered(c *Ctx, r *Report) {
 			}
 		}
 	}
+}
+
+// paramPolarity: cond is true exactly when boolean parameter p equals the returned polarity
+// (p, !p, p == true, p != false, p == false, p != true).
+func paramPolarity(cond ssa.Value, p *ssa.Parameter) (bool, bool) {
+	if cond == ssa.Value(p) {
+		return true, true
+	}
+	switch x := cond.(type) {
+	case *ssa.UnOp:
+		if x.Op == token.NOT {
+			if pol, ok := paramPolarity(x.X, p); ok {
+				return !pol, true
+			}
+		}
+	case *ssa.BinOp:
+		if x.Op != token.EQL && x.Op != token.NEQ {
+			return false, false
+		}
+		for _, pair := range [][2]ssa.Value{{x.X, x.Y}, {x.Y, x.X}} {
+			if k, isC := constBool(pair[1]); isC {
+				if pol, ok := paramPolarity(pair[0], p); ok {
+					if (x.Op == token.EQL) == k {
+						return pol, true
+					}
+					return !pol, true
+				}
+			}
+		}
+	}
+	return false, false
 }
